@@ -18,6 +18,7 @@ import DdnnfVerif.Model.StreamMsg
 import DdnnfVerif.Model.Edit
 import DdnnfVerif.Model.TWise
 import DdnnfVerif.Model.TWiseGen
+import DdnnfVerif.Model.TIter
 import DdnnfVerif.Model.SatState
 import DdnnfVerif.Proofs.PDLeaf
 import DdnnfVerif.Proofs.CnfExport
@@ -294,6 +295,37 @@ def answer (nodes : List NType) (n : Nat) (kind : String) (args : List String) :
        | t :: "|" :: rest =>
            let cfgs := ((splitOnTok ";" rest).filter (!·.isEmpty)).map fun c => c.filterMap String.toInt?
            TWise.verdict nodes n (t.toNat?.getD 0) cfgs
+       | _ => "bad-args")
+  | "titer" =>
+      -- `q titer n t`: what the state machine of t_iterator.rs yields; it must also be the list the t-wise model uses
+      (match args with
+       | [a, b] =>
+           let (n', t') := (a.toNat?.getD 0, b.toNat?.getD 0)
+           let viaMachine := TI.indices n' t'
+           let viaList := (TW.combos t' (List.range n')).map List.reverse
+           if viaMachine == viaList then ";".intercalate (viaMachine.map fun ix => " ".intercalate (ix.map toString))
+           else "state machine and list model differ"
+       | _ => "bad-args")
+  | "twgenA" =>
+      -- the fitness-guided construction replayed with the recorded comparison results:
+      -- `q twgenA t | L 1 0 | I a b ; c d | M 2 | B 1 -2 3 | D 1 0 | H 3 -1`
+      (match args with
+       | t :: rest =>
+           let entries := ((splitOnTok "|" rest).filter (!·.isEmpty)).filterMap fun e =>
+             match e with
+             | "I" :: ws => some (TW.OEntry.inter (if ws.isEmpty then [] else (splitOnTok ";" ws).map parseIntsD))
+             | "L" :: ws => some (TW.OEntry.lr (ws.map (· == "1")))
+             | "M" :: ws => some (TW.OEntry.moved ((ws.headD "0").toNat?.getD 0))
+             | "B" :: ws => some (TW.OEntry.best (parseIntsD ws))
+             | "D" :: ws => some (TW.OEntry.drop (ws.map (· == "1")))
+             | "H" :: ws => some (TW.OEntry.shuf (parseIntsD ws))
+             | _ => none
+           let (r, q) := TW.sampleTWiseAQ (TW.ctxOf nodes n) (t.toNat?.getD 0) { entries := entries }
+           let body := match r with
+             | .void => "false"
+             | .empty => "true"
+             | .sample _ => ";".intercalate (r.configs.map fmtInts)
+           s!"rejected={q.rejected} left={q.entries.length} | {body}"
        | _ => "bad-args")
   | "twgen" =>
       -- `q twgen t | I a b ; c d | S 1 0 | D 1 0 | H 3 -1`: the construction itself, replayed with the
